@@ -121,7 +121,14 @@ def decodeGo (buf : List Byte) : List Byte → List Char
     match utf8Check (buf ++ [b]) with
     | .ok code => Char.ofNat code :: decodeGo [] rest
     | .more => decodeGo (buf ++ [b]) rest
-    | .bad => Char.ofNat 0xFFFD :: decodeGo [] rest
+    | .bad =>
+      -- `from_utf8_lossy`: the maximal valid prefix of a sequence becomes one U+FFFD and decoding
+      -- resumes at the offending byte
+      if buf.isEmpty then Char.ofNat 0xFFFD :: decodeGo [] rest
+      else match utf8Check [b] with
+        | .ok code => Char.ofNat 0xFFFD :: Char.ofNat code :: decodeGo [] rest
+        | .more => Char.ofNat 0xFFFD :: decodeGo [b] rest
+        | .bad => Char.ofNat 0xFFFD :: Char.ofNat 0xFFFD :: decodeGo [] rest
 
 def toChars (bs : List Byte) : List Char := decodeGo [] bs
 def toBytes (cs : List Char) : List Byte := (String.ofList cs).toUTF8.toList
@@ -367,13 +374,27 @@ def outLines : Nat → List Byte → List Out
   | n + 1, inp =>
     if (nextLine inp).1 = [] then [] else Out.raw (nextLine inp).1 :: outLines n (nextLine inp).2
 
+/-- `read::main`: "input contains a nul byte" -/
+def hasNul (cs : List (Char × Bool)) : Bool := cs.any fun p => p.1.toNat == 0
+
+/-- the variables after `read`: nothing is assigned when reading failed or a NUL was read -/
+def readAssign (names : List String) (cs : List (Char × Bool)) (st : RStat)
+    (vars : List (String × String)) : List (String × String) :=
+  if st = .err || hasNul cs then vars else assignRead names cs vars
+
+/-- exit status of `read`: 0, 1 at end of input, 3 on a read error (`EXIT_STATUS_READ_ERROR`) -/
+def readExit (cs : List (Char × Bool)) (st : RStat) : Nat :=
+  match st with
+  | .err => 3
+  | .found => if hasNul cs then 3 else 0
+  | .eof => if hasNul cs then 3 else 1
+
 /-- the `read` built-in: one (logical) line from standard input into the variables; status 1 at end
     of input -/
 def execRead (s : State) (raw : Bool) (names : List String) : State :=
   let r := readLine raw s.stdin []
   let s' := s.setStdin r.2.2 (s.stdin.length - r.2.2.length)
-  { s' with vars := if r.2.1 = .err then s'.vars else assignRead names r.1 s'.vars,
-            status := match r.2.1 with | .found => 0 | .eof => 1 | .err => 3,
+  { s' with vars := readAssign names r.1 r.2.1 s'.vars, status := readExit r.1 r.2.1,
             hitEof := s'.hitEof || (s'.shared && r.2.1 != .found) }
 
 /-- `cat`: a here-document if there is one, otherwise everything left on standard input -/
@@ -489,7 +510,8 @@ def parserOf (s : State) (eof : Bool) (text : List Byte) : ParseRes :=
 /-- `Echo::next_line`: every pulled line goes to standard error when `verbose` is on at that moment.
     (The option cannot change while one command line is being parsed.) -/
 def echoOf (s : State) (text : List Byte) : List Byte :=
-  if s.verbose && s.shared then s.echo ++ text else s.echo
+  -- what is printed is the `String` the reader returned (`from_utf8_lossy` of the bytes)
+  if s.verbose && s.shared then s.echo ++ toBytes (toChars text) else s.echo
 
 inductive Outcome where
   | eof            -- `Ok(None)`: the loop returned `Continue(())`
